@@ -424,6 +424,13 @@ def join_menu(n):
             [(0, 1, 1), (2, 3, 1), (4, 6, 1)],           # three parts
             [(n - 1, n, 1), (0, 1, 1), (2, 4, 1)],
         ]
+    if n >= 8:
+        out += [
+            [(0, 3, 1), (4, 7, 1)],                      # parts long enough to straddle the origin by two letters after a rotation
+            [(4, 7, -1), (0, 3, -1)],
+            [(1, 4, 1), (n - 3, n, 1)],
+            [(n - 3, n, -1), (1, 4, -1)],
+        ]
     return out
 
 
